@@ -403,7 +403,7 @@ def inspectors(ctx, model, exe, problems):
                 fail.append("decoded content differs from the source")
             if f.get("consumed_first") != fields["ffcs"]:
                 fail.append("ZSTD_findFrameCompressedSize=%s but the streaming decoder consumed %s for the first frame" % (fields["ffcs"], f.get("consumed_first")))
-            if f.get("decoded") == "ERR":
+            if f.get("decoded") in ("ERR", None):
                 fail.append("valid frames not decodable")
             else:
                 dec = int(f["decoded"], 16)
